@@ -327,7 +327,8 @@ fn client_set_qname(it: &mut QuestionIterator, name: &[u8]) -> (r: Result<(), Er
 }
 
 // ---------------------------------------------------------------------------------------------------------------------------------
-// C11, the general statement: a walk over the answer or the authority section that deletes an ARBITRARY subset of the records it is given.
+// C11, the general statement: a walk over the answer, the authority or the additional section that deletes an ARBITRARY subset of the records
+// it is given (in the additional section the walk is never given the OPT record: into_iter_additional() and next() skip it, wherever it sits).
 // `decide` has no contract, so the verifier must treat its answers as arbitrary (any subset, any order of answers on revisits).
 #[verifier::external_body]
 fn decide(it: &ResponseIterator) -> (d: bool) { unimplemented!() }
@@ -341,22 +342,24 @@ pub open spec fn holds_recs(v: Seq<u8>, u0: Seq<u8>, cur: Seq<int>, si: int) -> 
     pf_packet(v) && sec_st(v, si) == sec_st(u0, si) && sec_n(v, si) == cur.len()
     && forall|j: int| 0 <= j < cur.len() ==> #[trigger] rec_bytes(v, sec_st(u0, si), j) == rec_bytes(u0, sec_st(u0, si), cur[j])
 }
-fn client_walk_delete(pp: &mut ParsedPacket, authority: bool) -> (res: (Ghost<Seq<int>>, Ghost<Set<int>>))
+pub open spec fn walk_sec(authority: bool, additional: bool) -> Section { if additional { Section::Additional } else if authority { Section::NameServers } else { Section::Answer } }
+fn client_walk_delete(pp: &mut ParsedPacket, authority: bool, additional: bool) -> (res: (Ghost<Seq<int>>, Ghost<Set<int>>))
     requires old(pp).wf(), old(pp).bytes().len() <= 0xffff,
         (if old(pp).maybe_compressed { wf_packet(old(pp).bytes()) && uncompress_spec(old(pp).bytes()).len() <= 0xffff } else { pf_packet(old(pp).bytes()) }),
     ensures final(pp).wf(),
-        ({ let u0 = ref_bytes(*old(pp)); let sec = if authority { Section::NameServers } else { Section::Answer }; let si = sec_idx(sec); let n0 = sec_count(old(pp).bytes(), sec); let cur = res.0@; let yielded = res.1@;
+        ({ let u0 = ref_bytes(*old(pp)); let sec = walk_sec(authority, additional); let si = sec_idx(sec); let n0 = sec_count(old(pp).bytes(), sec); let cur = res.0@; let yielded = res.1@;
            // "afterwards the section holds exactly the survivors in their original order with a matching count"
            increasing(cur, n0) && sec_count(final(pp).bytes(), sec) == cur.len()
            && (cur.len() < n0 ==> holds_recs(final(pp).bytes(), u0, cur, si) && !final(pp).maybe_compressed)
-           // "every surviving record is yielded at least once"
-           && (forall|j: int| 0 <= j < cur.len() ==> yielded.contains(#[trigger] cur[j]))
+           // "every surviving record is yielded at least once" (all of them but the OPT record, which these walks never show)
+           && (forall|j: int| 0 <= j < cur.len() ==> yielded.contains(#[trigger] cur[j]) || is_opt(final(pp).bytes(), rec_start(final(pp).bytes(), sec_start(final(pp).bytes(), sec), j)))
+           && (!additional ==> forall|j: int| 0 <= j < cur.len() ==> yielded.contains(#[trigger] cur[j]))
            // "an emptied section reads as absent"
-           && (cur.len() == 0 ==> (if authority { final(pp).offset_nameservers.is_none() } else { final(pp).offset_answers.is_none() })) }),
+           && (cur.len() == 0 ==> (if additional { final(pp).offset_additional.is_none() } else if authority { final(pp).offset_nameservers.is_none() } else { final(pp).offset_answers.is_none() })) }),
 {
     hide(pf_rr); hide(pf_rrs); hide(pf_rrs_end); hide(pf_n_opt); hide(pf_packet); hide(opt_at); hide(pcs_walk); hide(rec_ok); hide(opts); hide(wf_bytes); hide(recs_all); hide(sec_end); hide(n_opt);
     hide(walk); hide(skip_walk); hide(uncompress_spec); hide(bmap); hide(wf_packet); hide(rec_bytes);
-    let ghost pp0 = *pp; let ghost p0 = pp.bytes(); let ghost u0 = ref_bytes(*pp); let ghost sec = if authority { Section::NameServers } else { Section::Answer }; let ghost si = sec_idx(sec);
+    let ghost pp0 = *pp; let ghost p0 = pp.bytes(); let ghost u0 = ref_bytes(*pp); let ghost sec = walk_sec(authority, additional); let ghost si = sec_idx(sec);
     let ghost n0 = sec_count(pp.bytes(), sec); let ghost st0 = sec_st(u0, si);
     let ghost fin = *final(pp);
     let ghost mut cur: Seq<int> = Seq::new(n0 as nat, |j: int| j);
@@ -364,22 +367,31 @@ fn client_walk_delete(pp: &mut ParsedPacket, authority: bool) -> (res: (Ghost<Se
     proof {
         if pp0.maybe_compressed { theorem_c05(p0); lemma_un_pf_packet(p0); assert(wf_bytes(p0)) by { reveal(ParsedPacket::wf); }
             assert(sec_n(u0, si) == n0) by { reveal(pf_packet); reveal(wf_bytes); assert(u0.subrange(0, 12)[6] == u0[6] && u0.subrange(0, 12)[7] == u0[7] && p0.subrange(0, 12)[6] == p0[6] && p0.subrange(0, 12)[7] == p0[7]
-                && u0.subrange(0, 12)[8] == u0[8] && u0.subrange(0, 12)[9] == u0[9] && p0.subrange(0, 12)[8] == p0[8] && p0.subrange(0, 12)[9] == p0[9]); } }
+                && u0.subrange(0, 12)[8] == u0[8] && u0.subrange(0, 12)[9] == u0[9] && p0.subrange(0, 12)[8] == p0[8] && p0.subrange(0, 12)[9] == p0[9]
+                && u0.subrange(0, 12)[10] == u0[10] && u0.subrange(0, 12)[11] == u0[11] && p0.subrange(0, 12)[10] == p0[10] && p0.subrange(0, 12)[11] == p0[11]); } }
     }
-    let mut it = if authority { pp.into_iter_nameservers() } else { pp.into_iter_answer() };
+    let mut it = if additional { pp.into_iter_additional() } else if authority { pp.into_iter_nameservers() } else { pp.into_iter_answer() };
+    proof {
+        if let Some(i) = it {
+            assert(wf_bytes(p0)) by { reveal(ParsedPacket::wf); }
+            if !additional { reveal(wf_bytes); lemma_no_opt_at(p0, sec_start(p0, sec), sec_count(p0, sec), 0); }
+            assert(rec_start(p0, sec_start(p0, sec), 0) == sec_start(p0, sec));
+        }
+    }
     while let Some(item) = it
         invariant
-            increasing(cur, n0), n0 <= 0xffff, u0 == ref_bytes(pp0), p0 == pp0.bytes(), st0 == sec_st(u0, si), pf_packet(u0), sec_n(u0, si) == n0, sec == (if authority { Section::NameServers } else { Section::Answer }), si == sec_idx(sec),
+            increasing(cur, n0), n0 <= 0xffff, u0 == ref_bytes(pp0), p0 == pp0.bytes(), st0 == sec_st(u0, si), pf_packet(u0), sec_n(u0, si) == n0, sec == walk_sec(authority, additional), si == sec_idx(sec),
             it matches Some(i) ==> mut_ready(&i) && i.rr_iterator.section == sec && (i.pp().maybe_compressed ==> wf_packet(i.pk()))
                 && i.count() == cur.len() && i.tfin() == fin
                 && (if i.pp().maybe_compressed { i.pp() == pp0 && cur =~= Seq::new(n0 as nat, |j: int| j) } else { holds_recs(i.pk(), u0, cur, si) })
-                && (forall|j: int| 0 <= j < i.visited() - 1 ==> yielded.contains(#[trigger] cur[j])),
+                && !is_opt(i.pk(), i.rr_iterator.offset.unwrap() as int)
+                && (forall|j: int| 0 <= j < i.visited() - 1 ==> yielded.contains(#[trigger] cur[j]) || (additional && is_opt(i.pk(), rec_start(i.pk(), i.sstart(), j)))),
             it is None ==> fin.wf() && sec_count(fin.bytes(), sec) == cur.len()
                 && (cur.len() < n0 ==> holds_recs(fin.bytes(), u0, cur, si) && !fin.maybe_compressed)
-                && (forall|j: int| 0 <= j < cur.len() ==> yielded.contains(#[trigger] cur[j])),
+                && (forall|j: int| 0 <= j < cur.len() ==> yielded.contains(#[trigger] cur[j]) || (additional && is_opt(fin.bytes(), rec_start(fin.bytes(), sec_start(fin.bytes(), sec), j)))),
         ensures increasing(cur, n0), fin.wf(), sec_count(fin.bytes(), sec) == cur.len(),
                 cur.len() < n0 ==> holds_recs(fin.bytes(), u0, cur, si) && !fin.maybe_compressed,
-                forall|j: int| 0 <= j < cur.len() ==> yielded.contains(#[trigger] cur[j]),
+                forall|j: int| 0 <= j < cur.len() ==> yielded.contains(#[trigger] cur[j]) || (additional && is_opt(fin.bytes(), rec_start(fin.bytes(), sec_start(fin.bytes(), sec), j))),
         decreases cur.len(), (match it { Some(i) => i.count() - i.visited() + 1, None => 0int })
     {
         let mut item = item;
@@ -411,10 +423,11 @@ fn client_walk_delete(pp: &mut ParsedPacket, authority: bool) -> (res: (Ghost<Se
         }
         let ghost v = item.pk();
         proof {
-            // no OPT record in the answer / authority section: next() never skips, and yields a record whenever one is left
+            // no OPT record in the answer / authority section: next() never skips, and yields a record whenever one is left; in the additional
+            // section the only record it skips, and the only one that may be left when it returns None, is the OPT record
             assert(wf_bytes(v)) by { reveal(ParsedPacket::wf); }
             reveal(wf_bytes);
-            if item.visited() < item.count() { lemma_no_opt_at(v, sec_start(v, sec), sec_count(v, sec), item.visited()); }
+            if !additional && item.visited() < item.count() { lemma_no_opt_at(v, sec_start(v, sec), sec_count(v, sec), item.visited()); }
         }
         it = item.next();
     }
